@@ -1,11 +1,28 @@
 #!/bin/bash
-# usage: tools/refactor_campaign.sh [patches…] — runs every check against each behaviour-preserving patch under
+# usage: tools/refactor_campaign.sh [patches…] — runs the checks against each behaviour-preserving patch under
 # /verif/refactors (scratch worktrees, /repo untouched) and prints one RESULT line per patch. Expected: "alarms: none"
 # except for the rewrites DESIGN.md lists as known unrecognised.
+# ALL=1 runs all 20 checks per patch; by default only the checks that analyse a package the patch touches
+# (entry packages of each check plus the packages its interpretation inlines).
 cd /verif
 P="$@"; [ -z "$P" ] && P=$(ls refactors/*.diff)
 mkdir -p /tmp/refbin && cp bin/jtverif /tmp/refbin/jtverif
+ALLIDS=$(seq -f "C%02g" 1 20 | tr '\n' ' ')
 for f in $P; do
-  JTVERIF_BIN=/tmp/refbin/jtverif PAR=${PAR:-5} tools/try_refactor.sh /verif/$f > /tmp/refc_$(basename $f .diff).log 2>&1
-  tail -1 /tmp/refc_$(basename $f .diff).log
+  ids=""
+  if [ -n "$ALL" ]; then ids=$ALLIDS; else
+    for pk in $(grep "^+++ b/" $f | sed 's|+++ b/||' | awk -F/ '{ if ($1=="protocol") print $1"/"$2; else print $1}' | sort -u); do
+      case $pk in
+        service) ids="$ids C04 C05 C06 C09 C10 C11 C12 C13 C14 C18 C20";;
+        attachment) ids="$ids C09 C10 C15 C16 C19";;
+        protocol/model) ids="$ids C03 C06 C07 C08 C09 C10 C12 C14 C15 C16 C18 C20";;
+        protocol/jt1078) ids="$ids C03 C10 C17";;
+        terminal) ids="$ids C09 C20";;
+        *) ids=$ALLIDS;;
+      esac
+    done
+    ids=$(echo $ids | tr ' ' '\n' | sort -u | tr '\n' ' ')
+  fi
+  JTVERIF_BIN=/tmp/refbin/jtverif PAR=${PAR:-5} tools/try_refactor.sh /verif/$f $ids > /tmp/refc_$(basename $f .diff).log 2>&1
+  echo "$(tail -1 /tmp/refc_$(basename $f .diff).log) [ran: $ids]"
 done
